@@ -7,6 +7,8 @@ from . import storefam as S
 from .cachefam import is_deep_copy_expr, on_every_path
 from .fsproto import write_effects, ctor_kind
 
+from . import extra as X
+
 EXPLANATION = ("Structural clauses of the store contract over the leaf stores (MemoryStore, FileStore) and the generic wrappers: "
                "API completeness, metadata finalisation describing what was stored (and returned as a fresh copy), data and "
                "metadata written/removed together, ancestor creation, write-free reads, not-found is an exception, verbatim proxy "
@@ -318,3 +320,5 @@ def run(chk):
     rule_proxy_forwards(chk, "C07.7")
     rule_listings(chk, "C07.8")
     rule_child_keys(chk, "C07.9")
+    X.rule_metadata_location_injective(chk, "C07.10")
+    X.rule_removedir_recursion(chk, "C07.11", [("liquer.store", "FileStore"), ("liquer.store", "MemoryStore"), ("liquer.store", "OverlayStore"), ("liquer.store", "MountPointStore")])
